@@ -146,6 +146,9 @@ func (p *Protocol) RequestChunk(id ChunkID) (*Chunk, error) {
 	}
 	m, err := p.ReadMessage()
 	if err != nil {
+		if err == io.EOF { // the peer went away instead of answering, that's not a regular end of anything
+			err = io.ErrUnexpectedEOF
+		}
 		return nil, err
 	}
 	switch m.Type { // TODO: deal with ABORT messages
